@@ -1,7 +1,8 @@
-From Tetl Require Import Lib.Base C06a.Instances C03.Trace C03.Model C03.ModelOwn C03.ModelAgg C03.Spec.
+From Tetl Require Import Lib.Base C06a.Instances C03.Trace C03.Model C03.ModelOwn C03.ModelAgg C03.ModelMem C03.Spec.
 Require Extraction.
 Require Import ExtrOcamlBasic.
 Extraction Language OCaml.
 Extraction "C03_model.ml" wire_anchor wf_trace all_dead monitor run_case self_checks trace spec_verdict
   own_run_case own_self_checks own_trace own_spec_verdict storage_wf trk_of
-  agg_run_case agg_self_checks agg_count_self.
+  agg_run_case agg_self_checks agg_count_self
+  uninit arun alive.
